@@ -5,6 +5,7 @@ import tpcommon as T
 from engine import Op, set_mode
 
 PROP = "C20"
+QUICK_BOOST = 2
 LEAN_MODULES = ["IsoDT.Props.C20", "IsoDT.Props.C20b"]
 RULE = ("truncated points of every shape (time-of-day fields T06, T-30, T--15, ...; one day designator: "
         "day-of-month, day-of-year, weekday, week + weekday; alone or combined) x every field value incl. day "
